@@ -130,6 +130,8 @@ def render_c(items, seed=0, fortran=False, uid="x", plain=False, drop=()):
         else:
             ls = emit(hashpfx() + txt + ("" if bad else trail()))
         lines_of.append(ls)
+    # a closing comment line: never counted in the file's own language (it would be under another lexer)
+    out.append("! end of file" if fortran else "// end of file")
     return "\n".join(out) + "\n", lines_of
 
 
